@@ -1,7 +1,7 @@
 (* C12 — BehaviorSubject hands every new subscriber the current value first
-   (sequential histories; the concurrent statement is decided with C10's machinery). *)
-From RxModel Require Import Subject.
-From RxSpec Require Import SubjectSpec BehaviorSpec.
+   (sequential histories as theorems; the concurrent clause is refuted of the lock-level model and recorded). *)
+From RxModel Require Import Subject Ileave.
+From RxSpec Require Import SubjectSpec BehaviorSpec IleaveSpec.
 From RxProofs Require SubjectLaws BehaviorLaws.
 
 (* Every history of next / next_by / clone / subscribe / unsubscribe / peek / complete /
@@ -25,6 +25,36 @@ Theorem C12_hands_latest :
     forall f, snd (abstep (a, cur) (BNextBy f)) = snd (abstep (a, cur) (BSub (OpNext (f cur)))).
 Proof. exact BehaviorLaws.behavior_hands_latest. Qed.
 
+(* Concurrent producers over the thread-safe subject (lock-level model Ileave.v): the clause
+   "the most recent value is the one delivered last in the common order" does NOT hold of the
+   crate as it is.  next() stores the value in one critical section and broadcasts in another:
+   thread 0 stores 1, thread 1 stores 2 and broadcasts 2, thread 0 broadcasts 1 - the stored
+   value is 2, the value delivered last is 1.  And a subscriber that joins while another thread
+   emits can be handed the value from before that emission and never receive the emission.
+   (KNOWN FINDING C12-behavior-race; the same schedules are replayed on real threads.) *)
+Theorem C12_concurrent_refuted :
+  (exists sched, let '(tr, e, fin) := run_case 0 [IBSub 0] [[IBNext 1]; [IBNext 2]] sched in
+                 e = EFinished /\ latest_ok 0 [IBSub 0] [[IBNext 1]; [IBNext 2]] tr e fin = false) /\
+  (exists sched, let '(tr, e, fin) := run_case 0 [IBSub 0] [[IBNext 1]; [IBSub 1]] sched in
+                 e = EFinished /\ joiner_ok 0 [IBSub 0] [[IBNext 1]; [IBSub 1]] tr e = false).
+Proof.
+  split.
+  - exists ([0; 1; 1; 1; 1; 1; 1] ++ flat_map (fun _ => [0; 1]) (seq 0 20))%nat. vm_compute. split; reflexivity.
+  - exists ([1; 1; 0; 0; 0; 0; 0; 0; 0] ++ flat_map (fun _ => [0; 1]) (seq 0 20))%nat. vm_compute. split; reflexivity.
+Qed.
+
+(* a schedule without that overlap satisfies both clauses: the predicates are not vacuous *)
+Example C12_concurrent_serial_ok :
+  let '(tr, e, fin) := run_case 0 [IBSub 0] [[IBNext 1]; [IBNext 2]] (repeat 0 10 ++ repeat 1 10)%nat in
+  e = EFinished /\ latest_ok 0 [IBSub 0] [[IBNext 1]; [IBNext 2]] tr e fin = true /\ fin = 2%Z.
+Proof. vm_compute. repeat split; reflexivity. Qed.
+
+Check C12_concurrent_refuted :
+  (exists sched, let '(tr, e, fin) := run_case 0 [IBSub 0] [[IBNext 1]; [IBNext 2]] sched in
+                 e = EFinished /\ latest_ok 0 [IBSub 0] [[IBNext 1]; [IBNext 2]] tr e fin = false) /\
+  (exists sched, let '(tr, e, fin) := run_case 0 [IBSub 0] [[IBNext 1]; [IBSub 1]] sched in
+                 e = EFinished /\ joiner_ok 0 [IBSub 0] [[IBNext 1]; [IBSub 1]] tr e = false).
+Print Assumptions C12_concurrent_refuted.
 Check C12_behavior_refines : forall init h,
   BehaviorLaws.bsize_ok false h = true -> brun (bsubj0 init) h = abrun (asub0, init) h.
 Check C12_value_is_latest : forall a cur h, snd (BehaviorLaws.abfinal (a, cur) h) = latest cur h.
